@@ -14,6 +14,7 @@ import ForML.Model.Compile
 import ForML.Lemmas.C01Sem
 import ForML.Lemmas.C01Compile
 import ForML.Lemmas.C01Rerun
+import ForML.Lemmas.C01Traversal
 
 namespace ForML.Flow
 open Segment
@@ -126,11 +127,69 @@ theorem C01_dataflow (g : Segment) (A : Option Assets) (rank : Uid → Nat) (ord
   obtain ⟨t, hc, hd, hnd⟩ := compile_denotes hwf hA hp
   exact ⟨t, hc, C01_denoted_table_preserves g A rank t hwf hA hd hnd⟩
 
-/-- … in particular for the order in which `Traversal.each` feeds the compiler -/
+/-! ### the traversal (`span.Traversal.each`) -/
+
+/-- **`Traversal.each` never raises `Cyclic`**, on any graph (cyclic or not, well-formed or not): the model with the
+recursion path (`Traversal.members`) and the `Cyclic` test of `Traversal.subscribers` is the plain search — every node
+of the path is in the global `seen` set and that mask is tested first (`continue`) -/
+theorem C01_traversal_never_cyclic (g : Segment) : g.each = .ok g.visitOrder := each_eq g
+
+/-- **`Traversal.each` calls the acceptor exactly once for every node reachable from the head along subscriptions, not
+continuing past the tail except into trained subscribers, and for nothing else** — for every segment whose
+subscriptions stay inside the listed workers (`closed`, a part of `wf`); no acyclicity is needed, the default fuel
+always suffices -/
+theorem C01_traversal_enumerates (g : Segment) (h : g.closed = true) :
+    g.visitOrder.Nodup ∧ (∀ x ∈ g.visitOrder, x ∈ g.uids) ∧ ∀ x, x ∈ g.visitOrder ↔ Reach g.followed g.head x :=
+  visitOrder_spec h
+
+/-- the listed members of a well-formed segment are all reachable iff the decidable `connected` holds (every listed
+member but the head has a subscription through which the traversal follows it) … -/
+theorem C01_members_reachable (g : Segment) (rank : Uid → Nat) (hwf : g.wf rank = true) :
+    g.connected = true ↔ ∀ x ∈ g.uids, Reach g.followed g.head x := connected_iff_reach hwf
+
+/-- … which is exactly when the traversal enumerates the listed members, each once -/
+theorem C01_traversal_perm (g : Segment) (rank : Uid → Nat) (hwf : g.wf rank = true) :
+    g.connected = true ↔ g.visitOrder.Perm g.uids :=
+  ⟨visitOrder_perm hwf, connected_of_perm hwf⟩
+
+/-- **C01 for the order in which `Traversal.each` feeds the compiler** — no hypothesis on the visit order: for every
+well-formed segment whose listed members are the reachable ones, the traversal succeeds, the compiler fed in its order
+succeeds and the compiled table preserves the dataflow -/
 theorem C01_dataflow_traversal (g : Segment) (A : Option Assets) (rank : Uid → Nat)
-    (hwf : g.wf rank = true) (hA : g.assetsOK A = true) (hp : g.visitOrder.Perm g.uids) :
-    ∃ t, compile g A g.visitOrder = .ok t ∧ Preserves g A t :=
-  C01_dataflow g A rank g.visitOrder hwf hA hp
+    (hwf : g.wf rank = true) (hA : g.assetsOK A = true) (hc : g.connected = true) :
+    ∃ o t, g.each = .ok o ∧ compile g A o = .ok t ∧ Preserves g A t := by
+  obtain ⟨t, hct, hp⟩ := C01_dataflow g A rank g.visitOrder hwf hA (visitOrder_perm hwf hc)
+  exact ⟨g.visitOrder, t, each_eq g, hct, hp⟩
+
+/-- `wf` alone does not make the *listed* workers the members: the statement without `connected` … -/
+def C01_traversal_listed_full : Prop :=
+  ∀ (g : Segment) (rank : Uid → Nat), g.wf rank = true → g.visitOrder.Perm g.uids
+
+/-- … fails on a listed source (no input port) that nothing connects to the head -/
+def strayWorker : Segment := ⟨[⟨0, 0, 0, false, 1, 1⟩, ⟨1, 1, 1, false, 0, 1⟩], [], 0, 0, []⟩
+
+theorem C01_traversal_listed_counterexample : ¬ C01_traversal_listed_full := by
+  intro h
+  have := (h strayWorker (fun _ => 0) (by decide)).length_eq
+  revert this
+  decide
+
+/-- what does hold without `connected`: the traversal visits a duplicate-free sub-list of the listed workers -/
+theorem C01_traversal_listed_partial (g : Segment) (rank : Uid → Nat) (hwf : g.wf rank = true) :
+    g.visitOrder.Nodup ∧ ∀ x ∈ g.visitOrder, x ∈ g.uids :=
+  ⟨(visitOrder_spec (wf_closed hwf)).1, (visitOrder_spec (wf_closed hwf)).2.1⟩
+
+/-- non-vacuity of the enumeration theorem on a *cyclic* graph (1 → 2 → 1) with a node (3) fed by the tail only: no
+`Cyclic`, every reachable node once, the tail's plain subscriber is not a member while its trained one (4) is -/
+def cyclicDemo : Segment :=
+  ⟨[⟨0, 0, 0, false, 1, 1⟩, ⟨1, 1, 1, false, 2, 2⟩, ⟨2, 2, 2, false, 1, 1⟩, ⟨5, 5, 5, false, 1, 1⟩, ⟨3, 3, 3, false, 1, 1⟩,
+    ⟨4, 4, 4, true, 1, 1⟩],
+   [⟨0, 0, 1, .apply 0⟩, ⟨1, 0, 2, .apply 0⟩, ⟨2, 0, 1, .apply 1⟩, ⟨1, 1, 5, .apply 0⟩, ⟨5, 0, 3, .apply 0⟩,
+    ⟨5, 0, 4, .train⟩, ⟨0, 0, 4, .label⟩],
+   0, 5, []⟩
+
+example : cyclicDemo.closed = true := by decide
+example : cyclicDemo.each = .ok [0, 1, 2, 5, 4] := by rfl
 
 /-- the visit order is irrelevant: two traversals yield the same symbols -/
 theorem C01_order_irrelevant (g : Segment) (A : Option Assets) (rank : Uid → Nat) (o₁ o₂ : List Uid) (t₁ t₂ : Table)
@@ -207,6 +266,27 @@ theorem C01_rerun (g : Segment) (A : Option Assets) (rank : Uid → Nat) (order 
   rw [hc'] at hct; cases hct
   exact hpres
 
+/-- … and whatever happened to the store in between (commits of the table itself, commits from outside, refused
+commits with more or fewer states than persistent groups, a previous generation longer or shorter than the persistent
+list): against **any** store with the same persistent list the compiled table is the fresh compilation and preserves
+the dataflow of the segment with that store -/
+theorem C01_rerun_any_store (g : Segment) (A A' : Option Assets) (rank : Uid → Nat) (order : List Uid) (t : Table)
+    (hwf : g.wf rank = true) (hA : g.assetsOK A = true) (hp : order.Perm g.uids)
+    (hc : compile g A order = .ok t) (hs : SameP A A') :
+    compile g A' order = .ok t ∧ Preserves g A' t := by
+  have hc' : compile g A' order = .ok t := by rw [← compile_congr g hs order]; exact hc
+  obtain ⟨t', hct, hpres⟩ := C01_dataflow g A' rank order hwf (by rw [← assetsOK_congr g hs]; exact hA) hp
+  rw [hc'] at hct; cases hct
+  exact ⟨hc', hpres⟩
+
+/-- a commit from outside with a wrong number of states leaves the store as it was; one with the right number
+replaces the previous generation; either way the persistent list is the same -/
+theorem C01_external_commit (As : Assets) (vs : List Val) :
+    SameP (some As) (some (commitExternal As vs)) ∧
+    (vs.length ≠ As.persistent.length → commitExternal As vs = As) ∧
+    (vs.length = As.persistent.length → commitExternal As vs = { As with prev := vs.map undump }) :=
+  ⟨sameP_commitExternal As vs, commitExternal_refused As vs, commitExternal_accepted As vs⟩
+
 /-- the single stateless worker without any subscription (regression witness of fix C01-F1: the unrepaired
 `Linkage.leaves` asserted `'Not acyclic'` on its empty linkage) -/
 def loneWorker : Segment := ⟨[⟨0, 0, 0, false, 1, 1⟩], [], 0, 0, []⟩
@@ -234,9 +314,10 @@ def demoAssets : Option Assets := some ⟨[2], [.stored 0]⟩
 
 example : demo.wf demoRank = true := by decide +kernel
 example : demo.assetsOK demoAssets = true := by decide +kernel
-example : demo.visitOrder.Perm demo.uids := by decide +kernel
+example : demo.connected = true := by decide +kernel
+example : demo.each = .ok [0, 1, 2, 5, 7, 4, 3, 6] := by rfl
 /-- the theorem instantiated: the DESIGN shape compiles and preserves its dataflow -/
-example : ∃ t, compile demo demoAssets demo.visitOrder = .ok t ∧ Preserves demo demoAssets t :=
+example : ∃ o t, demo.each = .ok o ∧ compile demo demoAssets o = .ok t ∧ Preserves demo demoAssets t :=
   C01_dataflow_traversal demo demoAssets demoRank (by decide +kernel) (by decide +kernel) (by decide +kernel)
 example : (match compile demo demoAssets demo.visitOrder with
     | .ok t => demo.describes demoAssets t
